@@ -7,6 +7,7 @@
            (or ... REJECT when a label is not enabled in the model)
      CYC <n> | i:deps;...
         -> cyc=0|1   (or FUEL)
+     WFQ <n> | specs                 -> known=b trig=b closed=b acyclic=b  (hypotheses of the theorems)
      ACC <n> | specs | labels        -> acc=0|1   (used by the vm_compute cross-check)
 *)
 open C18_model
@@ -87,6 +88,11 @@ let handle line =
         | None -> body
         | Some (oc, res) ->
           Printf.sprintf "%s END:%s RES:%s VAL:eq" body (outcome_name oc) (ints (List.map int_of_nat res)))
+     | ["WFQ"; _] ->
+       let w = parse_wf (List.nth rest 0) in
+       let (((k, t), c), a) = c18_hyps w in
+       let b x = if x then 1 else 0 in
+       Printf.sprintf "known=%d trig=%d closed=%d acyclic=%d" (b k) (b t) (b c) (b a)
      | ["ACC"; _] ->
        let w = parse_wf (List.nth rest 0) in
        let ls = List.map parse_label (words (List.nth rest 1)) in
@@ -97,6 +103,7 @@ let handle line =
         | None -> "FUEL"
         | Some true -> "cyc=1"
         | Some false -> "cyc=0")
+     | ["SKIP"] -> "skipped"
      | _ -> "BADCASE")
 
 let () =
